@@ -62,7 +62,8 @@ pub struct HashAggregateState<'a, S: RowSource> {
 #[derive(Debug, Clone)]
 pub struct AggregateState {
     pub count: i64,
-    pub sum: i64,
+    /// wider than the summed i64 values, so that no number of rows overflows it
+    pub sum: i128,
     pub sum_float: f64,
     pub min_int: Option<i64>,
     pub max_int: Option<i64>,
@@ -105,7 +106,7 @@ impl AggregateState {
                 if let Some(val) = row.get(*column) {
                     match val {
                         Value::Int(i) => {
-                            self.sum += i;
+                            self.sum += *i as i128;
                             self.count += 1;
                         }
                         Value::Float(f) => {
@@ -120,7 +121,7 @@ impl AggregateState {
                 if let Some(val) = row.get(*column) {
                     match val {
                         Value::Int(i) => {
-                            self.sum += i;
+                            self.sum += *i as i128;
                             self.count += 1;
                         }
                         Value::Float(f) => {
@@ -179,7 +180,8 @@ impl AggregateState {
                 if self.count == 0 {
                     Value::Null
                 } else if self.sum != 0 {
-                    Value::Int(self.sum)
+                    // a total beyond BIGINT is reported as a float
+                    i64::try_from(self.sum).map_or(Value::Float(self.sum as f64), Value::Int)
                 } else if self.sum_float != 0.0 {
                     Value::Float(self.sum_float)
                 } else {
